@@ -215,8 +215,12 @@ func buildBinary(race bool) string {
 		}
 	}
 	sort.Slice(es, func(i, j int) bool { return es[i].t.After(es[j].t) })
-	for i := 4; i < len(es); i++ {
-		os.RemoveAll(es[i].p)
+	// keep the 8 most recent entries, and anything touched in the last two hours (a long
+	// check running elsewhere may still be using it: every use refreshes the entry's time)
+	for i := 8; i < len(es); i++ {
+		if time.Since(es[i].t) > 2*time.Hour {
+			os.RemoveAll(es[i].p)
+		}
 	}
 	return bin
 }
@@ -267,6 +271,12 @@ func runSpecEnv(bin string, spec RunSpec, idx int, gmp string) *RunResult {
 	cmd.Stderr = &stderr
 	cmd.Stdout = io.Discard
 	t0 := time.Now()
+	if _, serr := os.Stat(bin); serr != nil {
+		fatal2("simulation binary %s disappeared (cache evicted or scratch space cleaned while the check was running): %v", bin, serr)
+	}
+	// mark the cache entry as in use
+	now := time.Now()
+	os.Chtimes(filepath.Dir(bin), now, now)
 	err := cmd.Start()
 	if err != nil {
 		fatal2("cannot start %s: %v", bin, err)
